@@ -1,7 +1,7 @@
 (* C20 — deciding obligations. Statements only, closed by the lemmas proved in Async/*Proofs.v. *)
 From Coq Require Import ZArith List Bool.
 From VF Require Import Async.Collector Async.CollectorProofs.
-From VF Require Import Async.StreamTypes Generated.RetryTable Async.Stream Async.StreamProofs.
+From VF Require Import Async.StreamTypes Generated.RetryTable Async.Stream Async.StreamProofs Async.StreamProvenanceProofs.
 Import ListNotations.
 
 (* ---- Collector.collect_async: for every concurrency, budget, next_job oracle and completion schedule ---- *)
@@ -163,6 +163,45 @@ Theorem C20_demux_only_registered_waiter : forall m k e',
 Proof. exact demux_routes. Qed.
 Print Assumptions C20_demux_only_registered_waiter.
 
+(* an outcome reaches a submitter only through an event that concerns its own job: after one more event the completed
+   futures are the earlier ones plus those `caused` by the event — the response to the waiting execution's own current
+   request (with that response's content), a non-retryable failure of the stream it is subscribed on (that failure), its
+   own cancellation, or stop() *)
+Theorem C20_outcome_provenance : forall pp pj fl evs ev c e o,
+  In (c, e, o) (obs_dones (mrun pp pj fl (evs ++ [ev]))) ->
+  In (c, e, o) (obs_dones (mrun pp pj fl evs)) \/
+  (c = S (clock (mrun pp pj fl evs)) /\ caused (mrun pp pj fl evs) ev e o).
+Proof. exact outcome_provenance. Qed.
+Print Assumptions C20_outcome_provenance.
+
+(* the server's reply to a request nobody waits for any more (its submitter cancelled: the subscription is still there, the
+   waiter is gone) completes no future at all — in particular not another submitter's *)
+Theorem C20_late_reply_is_inert : forall pp pj fl evs k id p rest c e o,
+  let m := mrun pp pj fl evs in
+  take_nth k (pending m) = Some ((id, p), rest) ->
+  (forall e', lookup id (subs m) = Some e' -> ~ waits m e' id) ->
+  In (c, e, o) (obs_dones (mrun pp pj fl (evs ++ [Respond k]))) -> In (c, e, o) (obs_dones m).
+Proof. exact late_reply_is_inert. Qed.
+Print Assumptions C20_late_reply_is_inert.
+
+(* the response to the current request of a waiting execution takes effect at that execution in the same step: a result /
+   failed job is what its submit returns; an error code is answered by the request the retry table prescribes, or raised *)
+Theorem C20_own_reply_delivered : forall pp pj fl evs k id p rest e,
+  let m := mrun pp pj fl evs in
+  let m' := mrun pp pj fl (evs ++ [Respond k]) in
+  take_nth k (pending m) = Some ((id, p), rest) -> waits m e id ->
+  match p with
+  | MRes r => In (S (clock m), e, OReturned r) (obs_dones m')
+  | MErr c =>
+      exists x, nth_error (execs m) e = Some x /\
+        match retry c (ecur x) with
+        | Some r' => In (S (clock m), e, next_id m, r') (obs_reqs m')
+        | None => In (S (clock m), e, ORaisedStream c) (obs_dones m')
+        end
+  end.
+Proof. exact own_reply_delivered. Qed.
+Print Assumptions C20_own_reply_delivered.
+
 (* nothing is lost: every execution that has not finished is subscribed (ids subscribed at most once) under the id of its
    current request, and that request is on the wire of the current stream or its response is outstanding *)
 Theorem C20_no_lost_request : forall pp pj fl evs,
@@ -219,3 +258,18 @@ Proof. vm_compute. repeat split; reflexivity. Qed.
 Example C20_stream_example_running :
   running (mrun [] [] [] [Submit 0; Submit 1]) 1 /\ retryable XNotFound = false /\ retryable XUnknown = true.
 Proof. split; [unfold running; vm_compute; eexists; split; reflexivity|split; vm_compute; reflexivity]. Qed.
+(* the race behind C20_late_reply_is_inert: submit 0 is cancelled after the server handled its request, the reply arrives
+   while submit 1 is in flight; the hypotheses of the theorem hold there, submit 1 keeps running and later gets its result *)
+Example C20_stream_example_late_reply :
+  let m := mrun [] [] [] [Submit 0; Submit 0; Process 0; Cancel 0] in
+  take_nth 0 (pending m) = Some ((0, MRes (RResult 0)), []) /\ lookup 0 (subs m) = Some 0 /\ waiting_on m 0 0 = false /\
+  obs_dones (mrun [] [] [] [Submit 0; Submit 0; Process 0; Cancel 0; Respond 0]) = [(4, 0, OCancelled)] /\
+  obs_dones (mrun [] [] [] [Submit 0; Submit 0; Process 0; Cancel 0; Respond 0; Process 0; Respond 0; Process 0; Respond 0;
+                         Process 0; Respond 0])
+  = [(4, 0, OCancelled); (11, 1, OReturned (RResult 1))].
+Proof. vm_compute. repeat split; reflexivity. Qed.
+(* hypotheses of C20_own_reply_delivered: a handled request, its submitter waiting *)
+Example C20_stream_example_own_reply :
+  let m := mrun [] [] [] [Submit 0; Process 0] in
+  take_nth 0 (pending m) = Some ((0, MRes (RResult 0)), []) /\ waiting_on m 0 0 = true.
+Proof. vm_compute. split; reflexivity. Qed.
